@@ -447,6 +447,221 @@ example : (wsClose .client { up := true } ([0x82, 101] ++ List.replicate 101 0 +
     (wsClose .client { up := true } ([0x82, 101] ++ List.replicate 101 0 ++ [0x88, 0])).2.2.1.length = 91 := by decide +kernel
 example : (wsClose .server { up := true } [0x82, 2, 0, 1, 0x88, 0x80, 1, 2, 3, 4]).1 = false := by decide
 
+
+/-! ### round 3: `coap_ws_read` with ANY caller buffer, from ANY reader state; the drain on every input
+
+`readFrame_fits` (left open by round 2) is proved; on top of it: every `coap_ws_read` call the drain makes stays inside
+`buf[100]`, inside `rd_header[14]` and inside the payload destination; the loop of one call (`goto next_frame`) and the
+loop of `coap_ws_close` both terminate; and what the drain does when it cannot see the peer's Close frame. -/
+
+/-- (full strength; the statement round 2 left open) the header part AND the data part of `coap_ws_read`, for EVERY
+reader state, EVERY caller buffer size `datalen`, every pending byte string and every number of `goto next_frame`
+rounds: bytes are only consumed from the front of what is available, and a payload handed back has at most `datalen`
+bytes (header branches: `ret = size`, `size` of `ret > size`, both behind the `size > datalen` refusal; data part:
+`data_size ≤ datalen` is re-checked on entry) -/
+theorem ws_read_fits (mode : Mode) (datalen fuel : Nat) (st : Coap.M.Ws.St) (av : Bytes) :
+    (readFrame mode datalen fuel st av).2.2.length ≤ av.length ∧
+    ∀ pl, (readFrame mode datalen fuel st av).1 = .pkt pl → pl.length ≤ datalen :=
+  readFrame_fits mode datalen fuel st av
+
+/-- `RdOk datalen` = `hdr_ofs ≤ 14` and, while a frame that fits the caller's buffer is in progress, `data_ofs ≤ data_size`
+(what makes `sizeof(rd_header) - hdr_ofs` and `data_size - data_ofs` not wrap).  It is kept by `coap_ws_read` for every
+buffer size, pending byte string and fuel; a call from such a state never indexes outside `rd_header` (`oob`); and it is
+inherited by a caller with a smaller buffer (`coap_read_session`: 1472 → `coap_ws_close`: 100), also right after a 1009
+refusal, whose stale `data_ofs` is never used -/
+theorem ws_read_keeps_ok (mode : Mode) (datalen fuel : Nat) (st : Coap.M.Ws.St) (av : Bytes) (h : RdOk datalen st) :
+    RdOk datalen (readFrame mode datalen fuel st av).2.1 ∧ (readFrame mode datalen fuel st av).1 ≠ .oob :=
+  readFrame_ok mode datalen fuel st av h
+
+theorem ws_read_ok_smaller_buffer (d1 d2 : Nat) (st : Coap.M.Ws.St) (h : RdOk d1 st) (hd : d2 ≤ d1) : RdOk d2 st :=
+  RdOk_mono h hd
+
+/-- "Get in (remaining) data" from an `RdOk` state: the transport read goes to `[data_ofs, data_ofs + got)` of the
+caller's buffer (or of `rx_data`, allocated with `data_size` bytes) and that range ends at or before `datalen` -/
+theorem ws_read_data_dest_in_bounds (mode : Mode) (datalen : Nat) (st : Coap.M.Ws.St) (av data : Bytes)
+    (h : RdOk datalen st) (ha : st.allHdrIn = true) (hs : st.dataSize ≤ datalen) :
+    st.dataOfs + (av.take (st.dataSize - st.dataOfs)).length ≤ datalen :=
+  (readData_ok mode st av data datalen h.1 (h.2 ha)).2.2 hs
+
+/-- one `coap_ws_read` call terminates: every `goto next_frame` round takes at least the two fixed header bytes out of
+`rd_header` ++ the bytes at hand; any fuel above their number gives the same result (the model's fuel never runs out) -/
+theorem ws_read_next_frame_terminates (mode : Mode) (datalen f g : Nat) (st : Coap.M.Ws.St) (av : Bytes)
+    (hf : st.rdHeader.length + av.length < f) (hg : st.rdHeader.length + av.length < g) :
+    readFrame mode datalen f st av = readFrame mode datalen g st av :=
+  readFrame_fuel mode datalen f g st av hf hg
+
+/-- (strengthens `ws_close_drain_*`) for EVERY reader state and EVERY pending byte string: `drainCalls` lists exactly the
+`coap_ws_read(session, buf, 100)` calls of the drain; each of them hands back at most 100 bytes and only consumes pending
+bytes; the drain as a whole only consumes -/
+theorem ws_close_drain_fits (mode : Mode) (st : Coap.M.Ws.St) (av : Bytes) :
+    (drainCalls mode drainCount st av).length = (wsClose mode st av).2.2.2 ∧
+    (wsClose mode st av).2.2.1.length ≤ av.length ∧
+    ∀ c ∈ drainCalls mode drainCount st av,
+      (readFrame mode drainBuf (c.2.length + fsCap + 2) c.1 c.2).2.2.length ≤ c.2.length ∧
+      ∀ pl, (readFrame mode drainBuf (c.2.length + fsCap + 2) c.1 c.2).1 = .pkt pl → pl.length ≤ 100 :=
+  ⟨drainCalls_length mode drainCount st av, (closeDrain_ok mode drainCount st av).1,
+   fun c _ => readFrame_fits mode drainBuf _ c.1 c.2⟩
+
+/-- the drain from an `RdOk` state (every state `coap_ws_read` leaves behind, see `ws_read_keeps_ok`): every call
+starts from an `RdOk` state, has no more bytes pending than the drain had, never indexes outside `rd_header`, its
+`goto next_frame` fuel suffices; the state left behind is `RdOk` -/
+theorem ws_close_drain_in_bounds (mode : Mode) (st : Coap.M.Ws.St) (av : Bytes) (h : RdOk drainBuf st) :
+    RdOk drainBuf (wsClose mode st av).2.1 ∧
+    ∀ c ∈ drainCalls mode drainCount st av, RdOk drainBuf c.1 ∧ c.2.length ≤ av.length ∧
+      (readFrame mode drainBuf (c.2.length + fsCap + 2) c.1 c.2).1 ≠ .oob ∧
+      ∀ g, c.1.rdHeader.length + c.2.length < g →
+        readFrame mode drainBuf (c.2.length + fsCap + 2) c.1 c.2 = readFrame mode drainBuf g c.1 c.2 := by
+  refine ⟨(closeDrain_ok mode drainCount st av).2 h, fun c hc => ?_⟩
+  have hk := drainCalls_ok mode drainCount st av h c hc
+  refine ⟨hk.1, hk.2, (readFrame_ok mode drainBuf _ c.1 c.2 hk.1).2, fun g hg => ?_⟩
+  have := hk.1.1
+  exact readFrame_fuel mode drainBuf _ g c.1 c.2 (by simp only [fsCap] at *; omega) hg
+
+/-- `coap_ws_close` neither aborts nor loops for ever, on every input: at most `drainCount` = 5 rounds (the loop
+variable is the model's structural recursion argument, a round without readable socket is a 1 ms select() timeout), at
+most 5 `coap_ws_read` calls, each of them terminating (`ws_read_next_frame_terminates`) and — from an `RdOk` state —
+inside its buffers; whatever the outcome (`recv_close` or not) the function goes on to `l_close`: the model's result
+is total -/
+theorem ws_close_terminates (mode : Mode) (st : Coap.M.Ws.St) (av : Bytes) :
+    drainRounds mode drainCount st av ≤ 5 ∧ (wsClose mode st av).2.2.2 ≤ drainRounds mode drainCount st av ∧
+    (wsClose mode st av).2.2.2 ≤ drainCount ∧ (wsClose mode st av).2.2.1.length ≤ av.length ∧
+    (RdOk drainBuf st → ∀ c ∈ drainCalls mode drainCount st av,
+      (readFrame mode drainBuf (c.2.length + fsCap + 2) c.1 c.2).1 ≠ .oob) :=
+  ⟨(drainRounds_spec mode drainCount st av).1, (drainRounds_spec mode drainCount st av).2.1,
+   closeDrain_calls_le mode drainCount st av, (closeDrain_ok mode drainCount st av).1,
+   fun h c hc => ((ws_close_drain_in_bounds mode st av h).2 c hc).2.2.1⟩
+
+/-- bounded waiting, exactly: `drainRounds` = the select() calls of the loop (tied to the code by the `rounds=` field of the
+`wsclose` / `wsself` lines, select() being wrapped in the harness).  If the peer's Close frame is not seen the loop runs
+exactly 5 rounds — each a `coap_ws_read` call or a 1 ms timeout — and then the session is closed regardless; if it
+is seen, the round that saw it is the last -/
+theorem ws_close_drain_rounds (mode : Mode) (st : Coap.M.Ws.St) (av : Bytes) :
+    ((wsClose mode st av).1 = false → drainRounds mode drainCount st av = 5) ∧
+    ((wsClose mode st av).1 = true → 1 ≤ drainRounds mode drainCount st av ∧ drainRounds mode drainCount st av ≤ 5) :=
+  ⟨(drainRounds_spec mode drainCount st av).2.2.1,
+   fun h => ⟨(drainRounds_spec mode drainCount st av).2.2.2 h, (drainRounds_spec mode drainCount st av).1⟩⟩
+
+/-- the hypothesis of `ws_close_drain_in_bounds` holds whenever the application can call `coap_ws_close`: every reader
+state the event loop leaves behind in the frame phase — from the state right after the handshake (`rd_header` holding the
+≤ 14 carried-over bytes) or any other `UpOk` state, after EVERY list of chunks — is `RdOk` for the 1472-byte buffer of
+`coap_read_session`, hence for the drain's 100 bytes; and so is the state in which the reader itself calls
+`coap_ws_close` (right after a refusal inside `coap_ws_read`: `ws_read_keeps_ok`) -/
+theorem ws_frames_states_ok (mode : Mode) (accept : Bytes) (chunks : List Bytes) (st st' : Coap.M.Ws.St)
+    (hup : st.up = true) (h : RdOk Coap.M.Ws.rxBuf st) (he : (Coap.M.Ws.feed mode accept st chunks).2.1 = .open st') :
+    st'.up = true ∧ RdOk Coap.M.Ws.rxBuf st' ∧ RdOk drainBuf st' :=
+  have := feed_upok mode accept chunks st ⟨hup, h⟩ st' he
+  ⟨this.1, this.2, RdOk_mono this.2 (by decide)⟩
+
+/-- … and on a whole connection: after EVERY byte stream in EVERY segmentation, HTTP upgrade included, the state of an
+open session is `RdOk` (so `ws_close_drain_in_bounds` applies whenever the application calls `coap_ws_close`) -/
+theorem ws_reader_states_ok (mode : Mode) (accept : Bytes) (chunks : List Bytes) (st' : Coap.M.Ws.St)
+    (he : (Coap.M.Ws.feed mode accept {} chunks).2.1 = .open st') :
+    RdOk Coap.M.Ws.rxBuf st' ∧ RdOk drainBuf st' :=
+  have := feed_connOk mode accept chunks st' he
+  ⟨this.1, RdOk_mono this.1 (by decide)⟩
+
+/-- every way a `coap_ws_read` call (any state, any buffer size) closes the session by itself: Close frame header
+completed, header refused with 1002/1003 and left in `rd_header`, or frame refused with 1009 -/
+theorem ws_read_closed_cases (mode : Mode) (datalen fuel : Nat) (st : Coap.M.Ws.St) (av : Bytes)
+    (h : (readFrame mode datalen fuel st av).1 = .closed) :
+    recvCloseOf mode .closed (readFrame mode datalen fuel st av).2.1 = true ∨
+    Refused mode (readFrame mode datalen fuel st av).2.1 ∨
+    ((readFrame mode datalen fuel st av).2.1.allHdrIn = true ∧ (readFrame mode datalen fuel st av).2.1.dataSize > datalen) :=
+  readFrame_closed_cases mode datalen fuel st av h
+
+/-- the reader's own `coap_ws_close` (model `selfClose`, tied to the code by the `wsself` lines), for EVERY reader
+state and EVERY chunk: either a Close frame was received (no drain at all), or the drain starts from a refused header
+(1002/1003: `recv_close` stays 0, the header is refused again by every call, at most the free room of `rd_header` is read,
+at most 5 calls) or from a refused frame (1009: `recv_close` stays 0, 5 calls returning -1 if bytes are pending, none
+otherwise, NOTHING read, state untouched).  In each case the function returns and the session is closed. -/
+theorem ws_self_close_classified (mode : Mode) (accept : Bytes) (st : Coap.M.Ws.St) (chunk : Bytes)
+    (r : Bool × Coap.M.Ws.St × Bytes × Nat) (h : selfClose mode accept st chunk = some r) :
+    ∃ st' av', refusalPoint mode accept (6 * (chunk.length + 1)) 0 st chunk = some (st', av') ∧
+      ((recvCloseOf mode .closed st' = true ∧ r = (true, st', av', 0)) ∨
+       (Refused mode st' ∧ r.1 = false ∧ Refused mode r.2.1 ∧
+          av'.length ≤ r.2.2.1.length + (fsCap - st'.rdHeader.length) ∧ r.2.2.2 ≤ 5) ∨
+       (st'.allHdrIn = true ∧ st'.dataSize > 1472 ∧ r = (false, st', av', if av'.length = 0 then 0 else 5))) :=
+  selfClose_cases mode accept st chunk r h
+
+/-- the hypothesis of `ws_read_closed_cases` in each class (the call closes the session by itself): Close frame, Ping,
+1473-byte frame at a client; unmasked frame at a server — and the fuel bound of `ws_read_next_frame_terminates` on the
+model's own fuel for a full `rd_header` -/
+example : (readFrame .client 1472 20 { up := true } [0x88, 0]).1 = .closed ∧ (readFrame .client 1472 20 { up := true } [0x89, 0]).1 = .closed ∧
+    (readFrame .client 1472 20 { up := true } [0x82, 0x7e, 5, 0xc1]).1 = .closed ∧
+    (readFrame .server 1472 20 { up := true } [0x82, 0]).1 = .closed := by decide +kernel
+example : ({ up := true, rdHeader := List.replicate 14 0 } : Coap.M.Ws.St).rdHeader.length + [1, 2, 3].length < [1, 2, 3].length + fsCap + 2 := by
+  decide
+
+/-- the three classes on concrete chunks (client side, handshake done): Close frame in front of an empty frame —
+`recv_close`, no drain, 2 bytes never read; a Ping followed by a Close frame in the same header read — refused, the
+Close frame is never looked at, nothing left on the socket, no call; a 1473-byte frame header with 20 more bytes —
+refused, 5 calls, the 10 bytes behind the header read stay unread -/
+example : (selfClose .client [] { up := true } [0x88, 0, 0x82, 0]).map (fun r => (r.1, r.2.2.1.length, r.2.2.2)) =
+    some (true, 0, 0) := by decide +kernel
+example : (selfClose .client [] { up := true } ([0x88, 0] ++ List.replicate 20 7)).map (fun r => (r.1, r.2.2.1.length, r.2.2.2)) =
+    some (true, 8, 0) := by decide +kernel
+example : (selfClose .client [] { up := true } [0x89, 0, 0x88, 0]).map (fun r => (r.1, r.2.1.rdHeader, r.2.2.1.length, r.2.2.2)) =
+    some (false, [0x89, 0, 0x88, 0], 0, 0) := by decide +kernel
+example : (selfClose .client [] { up := true } ([0x82, 0x7e, 0x05, 0xc1] ++ List.replicate 20 7)).map
+    (fun r => (r.1, r.2.1.dataSize, r.2.2.1.length, r.2.2.2)) = some (false, 1473, 10, 5) := by decide +kernel
+/-- a server: unmasked frame with 30 bytes behind it: refused (1002), the drain tops `rd_header` up … nothing more: all
+14 bytes were already in, 18 bytes stay unread after 5 calls -/
+example : (selfClose .server [] { up := true } ([0x82, 2, 0, 1] ++ List.replicate 28 7)).map
+    (fun r => (r.1, r.2.1.rdHeader.length, r.2.2.1.length, r.2.2.2)) = some (false, 14, 18, 5) := by decide +kernel
+
+/-- observation 1 of round 2 as a theorem: once a `coap_ws_read` call has emptied the socket the loop only waits (no
+further call), whatever is left in `rd_header` — select() looks at the socket, not at `rd_header` -/
+theorem ws_close_drain_socket_empty (mode : Mode) (c : Nat) (st st' : Coap.M.Ws.St) (av : Bytes) (ret : Ret) (hav : av ≠ [])
+    (h : readFrame mode drainBuf (av.length + fsCap + 2) st av = (ret, st', [])) :
+    closeDrain mode (c + 1) st av = (recvCloseOf mode ret st', st', [], 1) :=
+  closeDrain_socket_empty mode c st st' av ret hav h
+
+/-- … in particular a data frame that arrived in the same 14-byte header read as the peer's Close frame: the call
+returns its payload, the Close frame stays in `rd_header`, `recv_close` stays 0, the session is closed after the
+remaining (at most 4) 1 ms waits -/
+theorem ws_close_drain_close_unseen (mode : Mode) (st st' : Coap.M.Ws.St) (av pl : Bytes) (hav : av ≠ [])
+    (h : readFrame mode drainBuf (av.length + fsCap + 2) st av = (.pkt pl, st', [])) :
+    wsClose mode st av = (false, st', [], 1) :=
+  closeDrain_close_unseen mode 4 st st' av pl hav h
+
+/-- observation 2 of round 2 as theorems: after a 1009 refusal (`all_hdr_in` set, `data_size` > 100) every call
+returns -1 before reading anything — 5 calls if bytes are pending, none otherwise; reader state and pending bytes
+untouched, `recv_close` stays 0 -/
+theorem ws_close_drain_oversize_stuck (mode : Mode) (st : Coap.M.Ws.St) (av : Bytes) (ha : st.allHdrIn = true)
+    (hs : st.dataSize > 100) :
+    wsClose mode st av = (false, st, av, if av.length = 0 then 0 else 5) :=
+  closeDrain_oversize mode drainCount st av ha hs
+
+/-- … and after a 1002 (unmasked frame to a server) or 1003 (opcode neither binary nor close) refusal, `Refused`: every
+call refuses the same header again; at most the free room of `rd_header` is taken from the socket; `recv_close` stays 0 -/
+theorem ws_close_drain_refused_stuck (mode : Mode) (st : Coap.M.Ws.St) (av : Bytes) (h : Refused mode st) :
+    (wsClose mode st av).1 = false ∧ Refused mode (wsClose mode st av).2.1 ∧
+    av.length ≤ (wsClose mode st av).2.2.1.length + (fsCap - st.rdHeader.length) :=
+  closeDrain_refused mode drainCount st av h
+
+/-- non-vacuity: `RdOk` holds right after the handshake, inside a payload, and after a 1009 refusal with a stale
+`data_ofs`; `Refused` states: a Ping header at a client, an unmasked header at a server -/
+example : RdOk 100 { up := true } := ⟨by decide, fun h => by cases h⟩
+example : RdOk 1472 { up := true, rdHeader := [0x82, 3, 7], allHdrIn := true, dataSize := 3, dataOfs := 1, rxData := some [7] } :=
+  ⟨by decide, fun _ _ => by decide⟩
+example : RdOk 100 { up := true, rdHeader := [0x82, 0x7e, 1, 0], allHdrIn := true, dataSize := 256, dataOfs := 300 } :=
+  ⟨by decide, fun _ h => absurd h (by decide)⟩
+example : Refused .client { up := true, rdHeader := [0x89, 0] } :=
+  ⟨rfl, 0x89, 0, [], rfl, Or.inr ⟨by decide, by decide, by decide⟩⟩
+example : Refused .server { up := true, rdHeader := [0x82, 2, 0, 1] } :=
+  ⟨rfl, 0x82, 2, [0, 1], rfl, Or.inl ⟨rfl, by decide⟩⟩
+/-- the hypotheses of `ws_close_drain_close_unseen` / `…_oversize_stuck` on concrete inputs: a 2-byte message, a second
+one and a Close frame in one 12-byte read (the first is returned, the others stay in `rd_header`); a refused 256-byte
+frame with 3 bytes pending -/
+example : readFrame .client drainBuf (12 + fsCap + 2) { up := true } [0x82, 2, 0, 1, 0x82, 2, 0, 2, 0x88, 2, 3, 0xe8] =
+    (.pkt [0, 1], { up := true, rdHeader := [0x82, 2, 0, 2, 0x88, 2, 3, 0xe8], maskKey := [], dataSize := 2, dataOfs := 2 }, []) := by
+  decide +kernel
+example : wsClose .client { up := true, rdHeader := [0x82, 0x7e, 1, 0], allHdrIn := true, dataSize := 256 } [1, 2, 3] =
+    (false, { up := true, rdHeader := [0x82, 0x7e, 1, 0], allHdrIn := true, dataSize := 256 }, [1, 2, 3], 5) := by decide +kernel
+/-- `drainCalls` on the four-frames-then-Close example: five calls, the first with all 58 bytes pending -/
+example : ((drainCalls .client drainCount { up := true } ((List.replicate 4 [0x82, 12, 0, 1,2,3,4,5,6,7,8,9,10,11]).flatten ++ [0x88, 0])).map
+    (fun c => c.2.length)) = [58, 44, 30, 16, 2] := by decide +kernel
+
 end Ws
 
 end Coap.C05
